@@ -9,6 +9,13 @@ from ffpack.utils import countingMatrix
 import numpy as np
 
 
+def _countingRstToMatrix( countingRst ):
+    # a valid history can have an empty count (no cycle is closed); its matrix is empty
+    if len( countingRst ) == 0:
+        countingRst = [ [ ] ]
+    return countingMatrix.countingRstToCountingMatrix( countingRst )
+
+
 def astmSimpleRangeCountingMatrix( data, resolution=0.5 ):
     '''
     Calculate ASTM simple range counting matrix.
@@ -51,7 +58,7 @@ def astmSimpleRangeCountingMatrix( data, resolution=0.5 ):
 
     data = digitization.sequenceDigitization( data, resolution )
     countingRst = astmCounting.astmSimpleRangeCounting( data, aggregate=False )
-    return countingMatrix.countingRstToCountingMatrix( countingRst )
+    return _countingRstToMatrix( countingRst )
 
 
 def astmRainflowCountingMatrix( data, resolution=0.5 ):
@@ -96,7 +103,7 @@ def astmRainflowCountingMatrix( data, resolution=0.5 ):
 
     data = digitization.sequenceDigitization( data, resolution )
     countingRst = astmCounting.astmRainflowCounting( data, aggregate=False )
-    return countingMatrix.countingRstToCountingMatrix( countingRst )
+    return _countingRstToMatrix( countingRst )
 
 
 def astmRangePairCountingMatrix( data, resolution=0.5 ):
@@ -141,7 +148,7 @@ def astmRangePairCountingMatrix( data, resolution=0.5 ):
 
     data = digitization.sequenceDigitization( data, resolution )
     countingRst = astmCounting.astmRangePairCounting( data, aggregate=False )
-    return countingMatrix.countingRstToCountingMatrix( countingRst )
+    return _countingRstToMatrix( countingRst )
 
 
 def astmRainflowRepeatHistoryCountingMatrix( data, resolution=0.5 ):
@@ -187,7 +194,7 @@ def astmRainflowRepeatHistoryCountingMatrix( data, resolution=0.5 ):
 
     data = digitization.sequenceDigitization( data, resolution )
     countingRst = astmCounting.astmRainflowRepeatHistoryCounting( data, aggregate=False )
-    return countingMatrix.countingRstToCountingMatrix( countingRst )
+    return _countingRstToMatrix( countingRst )
 
 
 def rychlikRainflowCountingMatrix( data, resolution=0.5 ):
@@ -232,7 +239,7 @@ def rychlikRainflowCountingMatrix( data, resolution=0.5 ):
 
     data = digitization.sequenceDigitization( data, resolution )
     countingRst = rychlikCounting.rychlikRainflowCounting( data, aggregate=False )
-    return countingMatrix.countingRstToCountingMatrix( countingRst )
+    return _countingRstToMatrix( countingRst )
 
 
 def johannessonMinMaxCountingMatrix( data, resolution=0.5 ):
@@ -277,7 +284,7 @@ def johannessonMinMaxCountingMatrix( data, resolution=0.5 ):
 
     data = digitization.sequenceDigitization( data, resolution )
     countingRst = johannessonCounting.johannessonMinMaxCounting( data, aggregate=False )
-    return countingMatrix.countingRstToCountingMatrix( countingRst )
+    return _countingRstToMatrix( countingRst )
 
 
 def fourPointCountingMatrix( data, resolution=0.5 ):
@@ -322,4 +329,4 @@ def fourPointCountingMatrix( data, resolution=0.5 ):
 
     data = digitization.sequenceDigitization( data, resolution )
     countingRst = fourPointCounting.fourPointRainflowCounting( data, aggregate=False )
-    return countingMatrix.countingRstToCountingMatrix( countingRst )
+    return _countingRstToMatrix( countingRst )
